@@ -28,15 +28,14 @@ def datetime_isostring(date, keep_microseconds=False):
     date -- date object
     keep_microseconds -- include microseconds in iso
     """
-    utc_offset_sec = time.altzone if time.localtime().tm_isdst == 1 else time.timezone
-    utc_offset = datetime.timedelta(seconds=-utc_offset_sec)
-
     if keep_microseconds:
         date_to_format = date
     else:
         date_to_format = date.replace(microsecond=0)
 
-    return date_to_format.replace(tzinfo=datetime.timezone(offset=utc_offset)).isoformat()
+    # naive dates are local time: attach the utc offset that is in force at that date,
+    # not the one of today (daylight saving time)
+    return date_to_format.astimezone().isoformat()
 
 
 def datetime_now_isostring():
